@@ -104,10 +104,10 @@ def pairs(P, R, f):
                 cd = astq.trace(f, v.value)
                 ok_mask = isinstance(md, ast.Call) and isinstance(md.func, ast.Attribute) and md.func.attr == 'intersects' \
                     and astq.arg_of(md, pos=1, kw='inds') is not None and norm(astq.arg_of(md, pos=1, kw='inds')) == cand
-                recv = astq.trace(f, md.func.value) if ok_mask else None
+                recv = astq.expand(f, md.func.value) if ok_mask else None
                 ok_recv = isinstance(recv, ast.AST) and (norm(recv).endswith('.geometry.array') or norm(recv).endswith('.geometry.values'))
                 ok_cand = isinstance(cd, ast.Call) and isinstance(cd.func, ast.Attribute) and cd.func.attr == 'intersects'
-                sx = astq.trace(f, cd.func.value) if ok_cand else None
+                sx = astq.expand(f, cd.func.value) if ok_cand else None
                 ok_sx = isinstance(sx, ast.AST) and norm(sx).endswith('.geometry.sindex')
                 same_frame = ok_recv and ok_sx and norm(recv).split('.geometry')[0] == norm(sx).split('.geometry')[0]
                 ok = ok_mask and ok_recv and ok_cand and ok_sx and same_frame
@@ -116,8 +116,8 @@ def pairs(P, R, f):
                     shape = astq.trace(f, md.args[0]) if md.args else None
                     bnds = astq.trace(f, cd.args[0]) if cd.args else None
                     okb = isinstance(shape, ast.Subscript) and norm(shape.slice) == i and isinstance(bnds, ast.Subscript) and norm(bnds.slice).lstrip('(').startswith(i)
-                    rs = astq.trace(f, shape.value) if isinstance(shape, ast.Subscript) else None
-                    rb = astq.trace(f, bnds.value) if isinstance(bnds, ast.Subscript) else None
+                    rs = astq.expand(f, shape.value) if isinstance(shape, ast.Subscript) else None
+                    rb = astq.expand(f, bnds.value) if isinstance(bnds, ast.Subscript) else None
                     okb = okb and isinstance(rs, ast.AST) and norm(rs) in (f'{right_frame}.geometry.array', f'{right_frame}.geometry.values') \
                         and isinstance(rb, ast.AST) and norm(rb).startswith(f'{right_frame}.geometry.bounds')
                     R.check(okb, 'C05.b', f, s, f'the shape and the bounds used in iteration {i} are row {i} of the right frame\'s active geometry',
